@@ -16,6 +16,17 @@ PROPS = {
              "thorough": {"checks": 5000, "shards": 16, "timeout": 1800}},
         ],
     },
+    "C04": {
+        "level": "fault_enumeration",
+        "jobs": [
+            {"test": "TestC04", "variant": "std", "case_timeout": 200,
+             "quick": {"checks": 3, "shards": 8, "timeout": 500},
+             "thorough": {"checks": 25, "shards": 12, "timeout": 2400}},
+            {"test": "TestC04Cleanup", "variant": "std", "case_timeout": 200,
+             "quick": {"checks": 5, "shards": 4, "timeout": 500},
+             "thorough": {"checks": 60, "shards": 4, "timeout": 2400}},
+        ],
+    },
     "C05": {
         "level": "fault_enumeration",
         "jobs": [
